@@ -103,14 +103,14 @@ Definition emplace_pre {P} (cap : nat) (t : tl P) : Prop :=
   (t_head t <= 255)%nat /\ (t_tail t <= 255)%nat /\ (t_last t <= 255)%nat /\
   ((t_count t < cap)%nat -> (t_head t < cap)%nat /\ (t_head t <> t_tail t -> (s_next (get P (t_items t) (t_head t)) < cap)%nat)).
 
-Theorem src_TaskList_emplace {P} cap (t : tl P) o d : emplace_pre cap t -> (o <= 255)%nat -> (d <= 255)%nat ->
+Theorem src_TaskList_emplace {P} cap (t : tl P) o d (p : option P) : emplace_pre cap t -> (o <= 255)%nat -> (d <= 255)%nat ->
   result (run leaf_ftable (tl_consts cap) TaskListT_void_5__emplace_u8_u8 [Z.of_nat o; Z.of_nat d] (tl_fields t) (tl_arrays t))
-  = let '(t', r) := emplace P cap t o d None in Some (Some (Z.of_nat r), tl_fields t', tl_arrays t').
+  = let '(t', r) := emplace P cap t o d p in Some (Some (Z.of_nat r), tl_fields t', tl_arrays t').
 Proof.
   intros (Hcap & Hlen & Hcnt & Hh & Ht & Hl & Hpre) Ho Hd.
   assert (Hlp : List.length (map s_prev (t_items t)) = cap) by (rewrite map_length; exact Hlen).
   assert (Hln : List.length (map s_next (t_items t)) = cap) by (rewrite map_length; exact Hlen).
-  remember (emplace P cap t o d None) as R eqn:HR. unfold run, tl_consts, tl_fields at 1, tl_arrays at 1.
+  remember (emplace P cap t o d p) as R eqn:HR. unfold run, tl_consts, tl_fields at 1, tl_arrays at 1.
   unfold emplace in HR. destruct (Nat.ltb_spec (t_count t) cap) as [Hlt|Hge].
   - destruct (Hpre Hlt) as [Hhd Hnx].
     destruct (Nat.eqb_spec (t_head t) (t_tail t)) as [Heq|Hne]; cbn [negb] in HR.
@@ -160,11 +160,72 @@ Proof.
 Qed.
 
 (* emplace and remove of the translated source on any list satisfying the invariant *)
-Corollary src_TaskList_emplace_FL (P : Type) cap (t : tl P) vac occ o d : FL P cap t vac occ -> (o <= 255)%nat -> (d <= 255)%nat ->
+Corollary src_TaskList_emplace_FL (P : Type) cap (t : tl P) vac occ o d (p : option P) : FL P cap t vac occ -> (o <= 255)%nat -> (d <= 255)%nat ->
   result (run leaf_ftable (tl_consts cap) TaskListT_void_5__emplace_u8_u8 [Z.of_nat o; Z.of_nat d] (tl_fields t) (tl_arrays t))
-  = let '(t', r) := emplace P cap t o d None in Some (Some (Z.of_nat r), tl_fields t', tl_arrays t').
+  = let '(t', r) := emplace P cap t o d p in Some (Some (Z.of_nat r), tl_fields t', tl_arrays t').
 Proof. intros F. apply src_TaskList_emplace. exact (FL_emplace_pre cap t vac occ F). Qed.
 Corollary src_TaskList_remove_FL (P : Type) cap (t : tl P) vac occ i : FL P cap t vac occ -> In i (map fst occ) ->
   result (run leaf_ftable (tl_consts cap) TaskListT_void_5__remove [Z.of_nat i] (tl_fields t) (tl_arrays t))
   = Some (None, tl_fields (remove P cap t i), tl_arrays (remove P cap t i)).
 Proof. intros F Hin. apply src_TaskList_remove. exact (FL_remove_pre cap t vac occ i F Hin). Qed.
+
+(* ---------- whole histories: any sequence of emplace / remove / clear, run through the translated bodies ---------- *)
+From FFSM2 Require Import Proofs.TaskListRun.
+Section Histories.
+Variable P : Type.
+Variable cap : nat.
+Definition tl_obj : Type := (list (string * Z) * list (string * list Z))%type.
+Definition obj_of (t : tl P) : tl_obj := (tl_fields t, tl_arrays t).
+Definition keep (r : option (option Z * list (string * Z) * list (string * list Z))) : option tl_obj :=
+  match r with Some (_, f, a) => Some (f, a) | None => None end.
+(* one operation on the object, by running the translated member function; None = the run faulted *)
+Definition src_step (ob : tl_obj) (op : tl_op P) : option tl_obj :=
+  let '(f, a) := ob in
+  match op with
+  | OpEmplace _ o d _ => keep (result (run leaf_ftable (tl_consts cap) TaskListT_void_5__emplace_u8_u8 [Z.of_nat o; Z.of_nat d] f a))
+  | OpRemove _ i => keep (result (run leaf_ftable (tl_consts cap) TaskListT_void_5__remove [Z.of_nat i] f a))
+  | OpClear _ => keep (result (run leaf_ftable (tl_consts cap) TaskListT_void_5__clear [] f a))
+  end.
+Fixpoint src_run (ob : tl_obj) (ops : list (tl_op P)) : option tl_obj :=
+  match ops with
+  | [] => Some ob
+  | op :: r => match src_step ob op with Some ob' => src_run ob' r | None => None end
+  end.
+Definition ids_ok (op : tl_op P) : Prop := match op with OpEmplace _ o d _ => (o <= 255 /\ d <= 255)%nat | _ => True end.
+
+Lemma src_run_gen : forall ops t vac occ,
+  FL P cap t vac occ -> ops_ok_from P cap ops t (map fst occ) -> Forall ids_ok ops ->
+  src_run (obj_of t) ops = Some (obj_of (tl_run P cap ops t)).
+Proof.
+  induction ops as [|op ops IH]; intros t vac occ F Hok Hids; [reflexivity|].
+  inversion Hids as [|? ? Hid Hids']; subst.
+  destruct op as [o d p|i|]; cbn [ops_ok_from tl_run fold_left tl_step src_run src_step obj_of] in *.
+  - destruct Hid as [Ho Hd].
+    rewrite (src_TaskList_emplace_FL P cap t vac occ o d p F Ho Hd).
+    destruct (Nat.lt_ge_cases (t_count t) cap) as [Hlt|Hge].
+    + destruct (emplace_FL P cap t vac occ o d p F Hlt) as (v0 & rest & Hv & Hs & Hlt0 & Hni & vac' & F').
+      destruct (emplace P cap t o d p) as [t' i] eqn:E. cbn [fst snd keep] in *. subst i.
+      assert (Hne : (v0 =? INVALID)%nat = false).
+      { apply Nat.eqb_neq. pose proof (fl_cap _ _ _ _ _ F). unfold INVALID. lia. }
+      rewrite Hne in Hok. apply (IH t' vac' _ F'); assumption.
+    + assert (Hc : t_count t = cap).
+      { pose proof (fl_count _ _ _ _ _ F). pose proof (fl_last _ _ _ _ _ F). pose proof (fl_count_occ _ _ _ _ _ F).
+        pose proof (used_le P cap t H0). lia. }
+      rewrite (emplace_full P cap t vac occ o d p F Hc) in *. cbn [fst keep]. rewrite Nat.eqb_refl in Hok.
+      apply (IH t vac occ F); assumption.
+  - destruct Hok as [Hin Hok].
+    rewrite (src_TaskList_remove_FL P cap t vac occ i F Hin). cbn [keep].
+    apply (IH _ _ _ (remove_FL P cap t vac occ i F Hin)); [|assumption].
+    rewrite map_fst_rem. exact Hok.
+  - rewrite (src_TaskList_clear P cap t). cbn [keep].
+    apply (IH _ _ _ (clear_FL P cap t vac occ F)); assumption.
+Qed.
+
+(* every in-contract history from a freshly constructed list: the translated code never faults and is, object for object, the model's run -
+   to which tl_run_FL (the invariant) and emplace_all_spec (no leak, exact capacity) apply *)
+Theorem src_TaskList_every_history ops : (1 <= cap <= 255)%nat -> tl_ops_ok P cap ops (tl_init P cap) -> Forall ids_ok ops ->
+  src_run (obj_of (tl_init P cap)) ops = Some (obj_of (tl_run P cap ops (tl_init P cap))).
+Proof.
+  intros Hcap Hok Hids. apply (src_run_gen ops (tl_init P cap) [0%nat] []); [apply init_FL; exact Hcap|exact Hok|exact Hids].
+Qed.
+End Histories.
